@@ -524,6 +524,10 @@ CO_ERR CORPdoGetMap(CO_RPDO *pdo, uint16_t num)
         }
 
         size = (uint8_t)(mapping & 0xFF) >> 3;
+        if (size == 0) {
+            /* an entry of less than one byte would take a slot without a byte */
+            return (CO_ERR_RPDO_MAP_OBJ);
+        }
         dlc += size;
         if (dlc > 8) {
             return (CO_ERR_RPDO_MAP_OBJ);
